@@ -415,6 +415,15 @@ def _lazy_cat(
                         new_dim,
                     )
                 )
+        if not out:
+            # only empty stacks: keep the batch size of the (absent) members
+            member_batch_size = list(batch_size)
+            member_batch_size.pop(stack_dim)
+            return type(list_of_tensordicts[0])(
+                stack_dim=stack_dim,
+                batch_size=member_batch_size,
+                device=list_of_tensordicts[0].device,
+            )
         return type(list_of_tensordicts[0])(*out, stack_dim=stack_dim)
     else:
         if not isinstance(out, LazyStackedTensorDict):
